@@ -124,3 +124,101 @@ def random_decide(tier, seed, n=None):
         out.append({"id": "rnd/%06d" % i, "backend": "fs" if i % 16 == 0 else ("fsenc" if i % 16 == 8 else "mem"),
                     "opt": {}, "steps": steps, "grp": "", "spv": 0})
     return out
+
+
+SELS = [[0, 0, 0, 0], [0, 0, 1, 0], [0, 0, 2, 0], [0, 0, 1, 1], [0, 0, 1, 2], [1, 0, 1, 0], [2, 1, 0, 0], [0, 0, 3, 0], [0, 0, 2, 3]]
+VARYS = [([], 0), ([2], 0), ([2, 3], 0), ([3], 0), ([3, 2], 0), ([0], 0), ([0, 1, 2], 0), ([], 1)]
+
+
+def rand_vary_ans(r, short=True):
+    v, vs = r.choice(VARYS)
+    return ans(ccp=1, ma=r.choice([0, 3, 5, 100, 100, 1000]) if short else 100, vary=v, vs=vs, etag=r.choice([0, 1, 2]),
+               swr=r.choice([NONE, NONE, 20]), lm=r.choice([NONE, 50]), sp=r.randrange(0, 2))
+
+
+def random_vary(tier, seed, n=None):
+    """random histories over one or two URIs with many selecting-header combinations and changing Vary"""
+    r = random.Random(seed * 104729 + 3)
+    n = n or (400 if tier == "quick" else 20000)
+    out = []
+    for i in range(n):
+        steps = []
+        total = 0
+        for _ in range(r.randrange(3, 9)):
+            req = rq(u=r.choice([0, 0, 0, 1]), sel=list(r.choice(SELS)), selsp=r.randrange(0, 3), usp=r.randrange(0, 6),
+                     fl=["no-cache"] if r.random() < 0.1 else [])
+            a1 = rand_vary_ans(r)
+            a2 = rand_vary_ans(r)
+            if r.random() < 0.35:
+                a1 = ans(k="304", st=304, ccp=1, ma=r.choice([5, 50]), etag=1, upd=1)
+            steps.append({"op": "req", "rq": req, "ans": [a1, a2]})
+            d = r.choice([0, 0, 1, 4, 6, 30])
+            total += d
+            steps.append({"op": "tick", "d": d})
+        out.append({"id": "rndvary/%06d" % i, "backend": "fs" if i % 10 == 0 else ("fsenc" if i % 10 == 5 else "mem"),
+                    "opt": {}, "steps": steps, "grp": "", "spv": 0})
+    return out
+
+
+METHODS = ["POST", "PUT", "DELETE", "PATCH", "PROPPATCH", "MKCOL", "COPY", "LOCK", "X-UNKNOWN", "FOO", "HEAD", "OPTIONS", "TRACE"]
+
+
+def random_inval(tier, seed, n=None):
+    """GETs on three resources (two share an origin) mixed with unsafe requests of any method, status and Location"""
+    r = random.Random(seed * 15485863 + 5)
+    n = n or (500 if tier == "quick" else 20000)
+    out = []
+    us = [0, 1, 10]
+    for i in range(n):
+        steps = []
+        for _ in range(r.randrange(4, 10)):
+            u = r.choice(us)
+            if r.random() < 0.3:
+                m = r.choice(METHODS)
+                loc = r.choice([0, 0, 1, 2, 11])
+                cloc = r.choice([0, 0, 0, 1, 2, 11])
+                so = lambda c: 1 if c and (c - 1) // 10 == u // 10 else 0
+                a = ans(st=r.choice([200, 201, 204, 301, 303, 400, 404, 500]), ccp=0, etag=0, loc1=loc, locso=so(loc),
+                        cloc1=cloc, clocso=so(cloc), locf=r.choice([0, 1, 2]) if so(loc) else 0)
+                if a["locf"] == 1 and cloc and not so(cloc):
+                    a["cloc1"], a["clocso"] = 0, 0
+                steps.append({"op": "req", "rq": rq(u=u, m=m, usp=r.randrange(0, 6)), "ans": [a]})
+            else:
+                steps.append({"op": "req", "rq": rq(u=u, sel=list(r.choice(SELS[:4])), usp=r.randrange(0, 6)),
+                              "ans": [ans(ccp=1, ma=r.choice([100, 100, 3]), etag=1, vary=r.choice([[], [2]])), ans(ccp=1, ma=100, etag=2)]})
+            steps.append({"op": "tick", "d": r.choice([0, 1, 5])})
+        out.append({"id": "rndinv/%06d" % i, "backend": "fs" if i % 10 == 0 else "mem", "opt": {}, "steps": steps, "grp": "", "spv": 0})
+    return out
+
+
+def periodic(tier, seed, n=None):
+    """a finite request alphabet repeated far beyond the footprint bound (C19)"""
+    r = random.Random(seed * 32452843 + 7)
+    n = n or (6 if tier == "quick" else 60)
+    rounds = 140 if tier == "quick" else 400
+    out = []
+    for i in range(n):
+        sels = [list(s) for s in r.sample(SELS, 3)]
+        varys = r.sample(VARYS, 3)
+        if i % 2 == 0 and ([], 1) not in varys:
+            varys[0] = ([], 1)
+        pattern = []
+        for _ in range(r.randrange(3, 6)):
+            kind = r.random()
+            if kind < 0.12:
+                pattern.append(("unsafe", r.choice([0, 1]), None))
+            else:
+                pattern.append(("get", r.choice([0, 0, 1]), r.choice(sels)))
+        steps = []
+        for _ in range(rounds):
+            for kind, u, sel in pattern:
+                if kind == "unsafe":
+                    steps.append({"op": "req", "rq": rq(u=u, m="POST"), "ans": [ans(st=200, ccp=0, etag=0)]})
+                else:
+                    v, vs = r.choice(varys)
+                    a = ans(ccp=1, ma=r.choice([0, 2, 50]), vary=v, vs=vs, etag=1, swr=r.choice([NONE, 5]))
+                    b = ans(k="304", st=304, ccp=1, ma=r.choice([2, 50]), etag=1) if r.random() < 0.5 else a
+                    steps.append({"op": "req", "rq": rq(u=u, sel=sel), "ans": [b, a]})
+                steps.append({"op": "tick", "d": r.choice([0, 1, 3])})
+        out.append({"id": "periodic/%04d" % i, "backend": "fs" if i % 3 == 2 else "mem", "opt": {}, "steps": steps, "grp": "", "spv": 0})
+    return out
